@@ -392,6 +392,13 @@ def write_plotfile(desc, path, ref=None):
     nd = ref.ndims
     nlev = ref.nlevels
     os.makedirs(path)
+    # an index space that does not start at 0 (AMReX allows any domain box): the descriptor's `index_shift` (level-0 cells,
+    # may be negative) is added to every index that is WRITTEN - domain line, level headers, FAB headers; the in-memory
+    # reference stays 0-based (box data, the covering relation between levels and physical bounds do not depend on it)
+    sh0 = list(d.get("index_shift") or [0] * nd)
+
+    def shifted(lo, hi, lv):
+        return boxstr([a + s_ * 2 ** lv for a, s_ in zip(lo, sh0)], [a + s_ * 2 ** lv for a, s_ in zip(hi, sh0)])
     lines = ["HyperCLaw-V1.1", str(len(ref.fields))]
     lines += list(ref.fields)
     lines.append(str(nd))
@@ -401,7 +408,7 @@ def write_plotfile(desc, path, ref=None):
     lines.append(" ".join(g17(v) for v in ref.geo_hi) + " ")
     nratio = (nlev - 1) + d["extra_ratio"]
     lines.append("".join("2 " for _ in range(nratio)))
-    lines.append(" ".join(boxstr([0] * nd, [n - 1 for n in ref.domain[lv]]) for lv in range(nlev)) + " ")
+    lines.append(" ".join(shifted([0] * nd, [n - 1 for n in ref.domain[lv]], lv) for lv in range(nlev)) + " ")
     lines.append(" ".join(str(d["step"]) for _ in range(nlev)) + " ")
     for lv in range(nlev):
         lines.append(" ".join(g17(v) for v in ref.dx[lv]) + " ")
@@ -430,13 +437,13 @@ def write_plotfile(desc, path, ref=None):
                     lo, hi = ref.boxes[lv][b]
                     files[b] = fname
                     offsets[b] = bf.tell()
-                    hdr = "%s%s %d\n" % (FAB_PREFIX, boxstr(lo, hi), len(ref.fields))
+                    hdr = "%s%s %d\n" % (FAB_PREFIX, shifted(lo, hi, lv), len(ref.fields))
                     bf.write(hdr.encode("ascii"))
                     bf.write(np.ascontiguousarray(ref.data[lv][b]).flatten(order="F").tobytes())
         assert None not in files, "layout must place every box"
         ch = ["1", "1", str(len(ref.fields)), "0", "(%d 0" % nb]
         for (lo, hi) in ref.boxes[lv]:
-            ch.append(boxstr(lo, hi))
+            ch.append(shifted(lo, hi, lv))
         ch.append(")")
         ch.append(str(nb))
         for b in range(nb):
@@ -460,7 +467,7 @@ def write_plotfile(desc, path, ref=None):
             lo, hi = ref.boxes[lv][0]
             a = -7.0 - ref.data[lv][0]
             with open(os.path.join(ldir, "Cell_D_00077"), "wb") as f:
-                f.write((FAB_PREFIX + boxstr(lo, hi) + " %d\n" % a.shape[-1]).encode() + np.asfortranarray(a).tobytes(order="F"))
+                f.write((FAB_PREFIX + shifted(lo, hi, lv) + " %d\n" % a.shape[-1]).encode() + np.asfortranarray(a).tobytes(order="F"))
             open(os.path.join(ldir, "Cell_D_00078"), "wb").close()
     return ref
 
@@ -513,11 +520,11 @@ class ParsedPlot(object):
         self.ratios = [int(a) for a in nxt().split()]
         doms = _box_re.findall(nxt())
         self.domain = []
+        self.index_lo = []          # first cell of the index space per level; every index read is reported relative to it
         for (lo, hi, _t) in doms:
             lo, hi = _ints(lo), _ints(hi)
-            if any(lo):
-                raise FormatError("domain does not start at 0")
-            self.domain.append([h + 1 for h in hi])
+            self.index_lo.append(list(lo))
+            self.domain.append([h - l + 1 for l, h in zip(lo, hi)])
         self.steps = [int(a) for a in nxt().split()]
         self.dx = [[float(a) for a in nxt().split()] for _ in range(self.finest + 1)]
         self.coord_sys = int(nxt())
@@ -590,7 +597,8 @@ class ParsedPlot(object):
             m = _box_re.match(nxt().strip())
             if not m:
                 raise FormatError("Cell_H index line")
-            pl.index.append((_ints(m.group(1)), _ints(m.group(2))))
+            il = self.index_lo[lv] if lv < len(self.index_lo) else [0] * self.ndims
+            pl.index.append((tuple(a - o for a, o in zip(_ints(m.group(1)), il)), tuple(a - o for a, o in zip(_ints(m.group(2)), il))))
         if nxt().strip() != ")":
             raise FormatError("Cell_H box array closing")
         if int(nxt()) != nb:
@@ -645,6 +653,8 @@ class ParsedPlot(object):
                 raise FormatError("no FAB header at offset %d of %s (level %d box %d): %r"
                                   % (pl.offsets[b], pl.files[b], lv, b, h[:80]))
             lo, hi, nc = _ints(m.group(1).decode()), _ints(m.group(2).decode()), int(m.group(4))
+            il = self.index_lo[lv] if lv < len(getattr(self, "index_lo", [])) else [0] * len(lo)
+            lo, hi = tuple(a - o for a, o in zip(lo, il)), tuple(a - o for a, o in zip(hi, il))
             shape = tuple(hi[d] - lo[d] + 1 for d in range(len(lo)))
             n = int(np.prod(shape)) * nc
             raw = f.read(n * 8)
@@ -667,6 +677,8 @@ class ParsedPlot(object):
                 if not m:
                     raise FormatError("%s: no FAB header at %d" % (fname, off))
                 lo, hi, nc = _ints(m.group(1).decode()), _ints(m.group(2).decode()), int(m.group(4))
+                il = self.index_lo[lv] if lv < len(getattr(self, "index_lo", [])) else [0] * len(lo)
+                lo, hi = tuple(a - o for a, o in zip(lo, il)), tuple(a - o for a, o in zip(hi, il))
                 n = int(np.prod([hi[d] - lo[d] + 1 for d in range(len(lo))])) * nc * 8
                 f.seek(n, 1)
                 if f.tell() > size:
